@@ -63,7 +63,8 @@ func (b *Bind) GetCommand() sms.ICommander {
 
 func (b *Bind) GenEmptyResponse() sms.PDU {
 	return &BindResp{
-		Header: sgip.NewHeader(0, sgip.SGIP_BIND_REP, b.Sequence[0], b.GetSequenceID()),
+		// the response carries the sequence number of the request, all three parts (SGIP 1.2 §3.4)
+		Header: sgip.Header{TotalLength: 0, CommandID: sgip.SGIP_BIND_REP, Sequence: b.Header.Sequence},
 	}
 }
 
